@@ -123,6 +123,20 @@ pub fn extra_command(cmd: &str, args: &[String]) -> bool {
             }
             true
         }
+        "cpu-ms-test" => {
+            // self-test of the watchdogs' clock: ~300 ms of spinning must show, 300 ms of sleeping must not
+            let c0 = crate::report::cpu_ms();
+            let t = std::time::Instant::now();
+            let mut x = 0u64;
+            while t.elapsed().as_millis() < 300 {
+                x = x.wrapping_mul(6364136223846793005).wrapping_add(1);
+            }
+            let c1 = crate::report::cpu_ms();
+            std::thread::sleep(std::time::Duration::from_millis(300));
+            let c2 = crate::report::cpu_ms();
+            println!("spin: {} ms cpu, sleep: {} ms cpu ({x})", c1 - c0, c2 - c1);
+            true
+        }
         "digest-run" => {
             c20::digest_run(args);
             true
